@@ -552,6 +552,14 @@ def oracle_surface(ck, rng):
             st = avg.value_stack()
             expect(st.shape[0] == len(keys) and all(np.array_equal(st[i], avg[k]) for i, k in enumerate(keys)) and
                    all(np.array_equal(a_, avg[k]) for a_, k in zip(avg.value_list(), keys)), "group-average", "value_stack / value_list are not in key order", info)
+            # several different functions through the groups: column j of every group table is function j (of that group's molecules)
+            gfns = [lambda a: float(a.max()), lambda a: float(a.max()) + 0.25, lambda a: float(a.max()) + 0.5]
+            gtab = g.apply(gfns, schema=["f0", "f1", "f2"])
+            for key in keys:
+                want_ = np.array([[value_of[t] + 0.25 * j for j in range(3)] for t in members[key]])
+                arr_ = gtab[key].to_numpy()
+                expect(arr_.shape == want_.shape and np.allclose(arr_, want_, atol=1e-3), "group-apply-functions",
+                       f"group {key}: entry [i, j] of the group apply table is not function j of molecule i (got {arr_.tolist()}, want {want_.tolist()})", info)
             ga = g.apply(np.max)
             melt = ga.value_melt()
             got = list(zip(melt["group"].to_list(), dec(melt[melt.columns[0]].to_numpy())))
@@ -559,6 +567,16 @@ def oracle_surface(ck, rng):
             expect(got == want, "group-melt", f"melted apply table {got} != {want}", info)
             expect([dec(df[df.columns[0]].to_numpy()) for df in ga.value_list()] == [members[k] for k in keys], "group-melt", "value_list of the apply tables is not in key order", info)
             if kind == "batch":
+                # (the accessor is asked on the batch as built and on a copy whose molecule table has been permuted)
+                for ld_acc in (ld, ld.replace(molecules=ld.molecules.subset([int(x) for x in rng.permutation(n)]))):
+                    ids_ = [r[1] for r in table(ld_acc, kind)]
+                    tags_ = [r[0] for r in table(ld_acc, kind)]
+                    for iid in dict.fromkeys(ids_):
+                        sub = ld_acc.loaders[iid]
+                        want = [t for t, i_ in zip(tags_, ids_) if i_ == iid]
+                        expect(sub.molecules.features["tag"].to_list() == want and dec(sub.asnumpy()) == want and sub.image is ld_acc.images[iid],
+                               "loaders-accessor", f"loaders[{iid}] of a batch with image ids {ids_}: holds {sub.molecules.features['tag'].to_list()}, "
+                               f"loads {dec(sub.asnumpy())}; that tomogram's molecules are {want}", info)
                 ids = [r[1] for r in table(ld, kind)]
                 first = list(dict.fromkeys(ids))
                 acc = ld.loaders
@@ -582,6 +600,19 @@ def oracle_surface(ck, rng):
                 fl2 = BatchLoader.from_loaders([fl, its[0]], order=0, scale=1.0, output_shape=(1, 1, 1))
                 ft2 = fl2.molecules.features["tag"].to_list()
                 expect(len(ft2) == n + its[0].count() and dec(fl2.asnumpy()) == ft2, "from-loaders", f"from_loaders([batch, single]): molecules {ft2} load as {dec(fl2.asnumpy())}", info)
+            if kind == "batch":
+                # a tomogram registered without molecules before the others
+                from acryo import Molecules
+                b2 = BatchLoader(order=0, scale=1.0, output_shape=(1, 1, 1))
+                b2.add_tomogram(np.full((3, 3, 3), 7.0, np.float32), Molecules(np.zeros((0, 3))), image_id=4)
+                for k_, (iid_, val_) in enumerate(((9, 21.0), (2, 33.0))):
+                    b2.add_tomogram(np.full((3, 3, 3), val_, np.float32), Molecules(np.ones((k_ + 1, 3)), features={"w": [val_] * (k_ + 1)}), image_id=iid_)
+                for iid_, val_ in ((9, 21.0), (2, 33.0)):
+                    sub = b2.loaders[iid_]
+                    expect(sub.molecules.features["w"].to_list() == [val_] * len(sub.molecules) and float(np.asarray(sub.asnumpy()).ravel()[0]) == val_
+                           and float(np.asarray(sub.image).ravel()[0]) == val_, "loaders-accessor",
+                           f"batch with an empty tomogram registered first: loaders[{iid_}] is another tomogram's loader", info)
+                expect(raises(lambda: b2.loaders[4], KeyError), "loaders-accessor", "loaders[id] of a tomogram without molecules did not raise KeyError", info)
             # nothing above modified the loader
             expect([r[0] for r in table(ld, kind)] == tags and dec(ld.asnumpy()) == tags, "purity", "the original loader changed", info)
         except Exception as e:  # noqa
